@@ -1,15 +1,38 @@
 import os, re
 import vlib
 
+OTHER_CLOCK_READS = ('time.NewTimer(', 'time.After(', 'time.Sleep(', 'time.NewTicker(', 'time.Tick(')
+
 def prepare(wd):
-    """instrumented copy of the CURRENT rotation.go: wall-clock calls go to the fake clock"""
+    """instrumented copy of the CURRENT rotation.go: every wall-clock read goes to the fake clock"""
     src = open(os.path.join(vlib.REPO, 'pkg/rendezvous/rotation.go')).read()
+    for k in OTHER_CLOCK_READS:
+        if k in src:
+            raise RuntimeError('rotation.go reads the clock through %s..., which the fake clock does not cover' % k)
     out = re.sub(r'\btime\.Now\(', 'vclockNow(', src)
     out = re.sub(r'\btime\.Until\(', 'vclockUntil(', out)
+    out = re.sub(r'\btime\.Since\(', 'vclockSince(', out)
     out = re.sub(r'\btime\.AfterFunc\(', 'vclockAfterFunc(', out)
     p = os.path.join(wd, 'rotation_vclock.go')
     open(p, 'w').write(out)
     return {'pkg/rendezvous/rotation.go': p}
+
+def prepare_marshaler(wd):
+    """the same, plus the head-exchange marshaler of the root package"""
+    d = prepare(wd)
+    src = open(os.path.join(vlib.REPO, 'message_marshaler.go')).read()
+    for k in OTHER_CLOCK_READS + ('time.AfterFunc(',):
+        if k in src:
+            raise RuntimeError('message_marshaler.go reads the clock through %s..., which the fake clock does not cover' % k)
+    out = re.sub(r'\btime\.Now\(', 'rendezvous.VClockNow(', src)
+    out = re.sub(r'\btime\.Until\(', 'rendezvous.VClockUntil(', out)
+    out = re.sub(r'\btime\.Since\(', 'rendezvous.VClockSince(', out)
+    if out != src:
+        out += '\nvar _ = time.Now // keep the import used\n'
+    p = os.path.join(wd, 'message_marshaler_vclock.go')
+    open(p, 'w').write(out)
+    d['message_marshaler.go'] = p
+    return d
 
 SPEC = {
     'id': 'C17',
@@ -27,7 +50,7 @@ SPEC = {
         'name': 'marshaler', 'pkg': '.', 'test': 'TestVerifC17Marshaler',
         'files': [('pkg/rendezvous', 'harness/rendezvous/zz_verif_clock.go'),
                   ('.', 'harness/root/zz_verif_c17mm_test.go')],
-        'prepare': prepare,
+        'prepare': prepare_marshaler,
         'model_module': 'Model.C17_Rendezvous', 'imports': ['From Wesh Require Import Gen.Rotation.'], 'scope': 'Z_scope',
         'shard': 100, 'timeout': 900, 'search_n': 600,
     }],
@@ -42,7 +65,7 @@ SPEC = {
         'no axioms',
         'translator gen/rotation.go (comparison operator of Point.IsExpired -> Gen/Rotation.v)',
         'harness/root/zz_verif_c17mm_test.go (head-exchange marshaler over the same fake clock)',
-        'harness/rendezvous (fake clock substituted for time.Now/Until/AfterFunc by textual rewriting of the current rotation.go; timers run synchronously in creation order when the clock passes them)',
+        'harness/rendezvous (fake clock substituted for time.Now/Until/Since/AfterFunc by textual rewriting of the current rotation.go and message_marshaler.go; any other clock read in them breaks the correspondence; timers run synchronously in creation order when the clock passes them)',
         'modelled, not verified: HMAC-SHA256 (symbolic, injective in key and message), package time',
     ],
     'assumptions': [
